@@ -58,7 +58,7 @@ func TestC34(t *testing.T) {
 	defer conn.Close()
 	cli := pb.NewCoreRPCClient(conn)
 
-	topo := &sim.Topology{Pods: []string{"pa"}}
+	topo := &sim.Topology{Pods: []string{"pa", "pb"}}
 	for i := 0; i < 4; i++ {
 		topo.Nodes = append(topo.Nodes, sim.NodeSpec{Name: fmt.Sprintf("n%d", i), Pod: "pa", Cores: 16, Memory: 64 << 30, Up: true})
 	}
@@ -125,7 +125,8 @@ func TestC34(t *testing.T) {
 					}
 					op := "create"
 					if k > 2 {
-						op = []string{"create", "create", "remove", "dissociate", "realloc", "realloc", "control", "send", "status-set", "status-get", "list", "list-nodes", "get-workloads", "status-stream", "node-resource", "capacity"}[rr.Intn(16)]
+						op = []string{"create", "create", "remove", "dissociate", "realloc", "realloc", "control", "send", "status-set", "status-get", "list", "list-nodes", "get-workloads", "status-stream", "node-resource", "capacity",
+							"replace", "set-node", "get-node", "pod-resource", "node-status", "node-status-stream", "service-status", "copy", "log-stream", "run-and-wait", "list-node-workloads", "spare-node", "pods", "execute"}[rr.Intn(30)]
 					}
 					switch op {
 					case "create":
@@ -253,6 +254,156 @@ func TestC34(t *testing.T) {
 						scancel()
 					case "node-resource":
 						_, _ = cli.GetNodeResource(ctx, &pb.GetNodeResourceOptions{Opts: &pb.GetNodeOptions{Nodename: fmt.Sprintf("n%d", rr.Intn(4))}})
+					case "replace":
+						ids := pick(rr, 1+rr.Intn(2))
+						if len(ids) == 0 {
+							break
+						}
+						if st, err := cli.ReplaceWorkload(ctx, &pb.ReplaceOptions{IDs: ids, DeployOpt: &pb.DeployOptions{Name: "app", Entrypoint: &pb.EntrypointOptions{Name: "web"}, Podname: "pa", Image: "img2", Count: 1,
+							DeployStrategy: pb.DeployOptions_AUTO, Resources: res(float64(1+rr.Intn(100))/100, rr.Intn(2) == 0)}}); err == nil {
+							for {
+								m, err := st.Recv()
+								if err != nil {
+									break
+								}
+								if m.Error == "" && m.Remove != nil && m.Create != nil && m.Create.Id != "" {
+									forget(m.Remove.Id)
+									mu.Lock()
+									live = append(live, m.Create.Id)
+									mu.Unlock()
+									rec.Count("effective/replace", 1)
+								}
+							}
+						}
+					case "set-node":
+						o := &pb.SetNodeOptions{Nodename: fmt.Sprintf("n%d", rr.Intn(4)), Labels: map[string]string{"zone": fmt.Sprint(rr.Intn(3))}}
+						switch rr.Intn(4) {
+						case 0:
+							b, _ := json.Marshal(map[string]any{"memory": 1 << 20})
+							o.Resources, o.Delta = map[string][]byte{"cpumem": b}, true
+						case 1:
+							o.WorkloadsDown = true
+						}
+						if _, err := cli.SetNode(ctx, o); err == nil {
+							rec.Count("effective/set-node", 1)
+						}
+					case "get-node":
+						_, _ = cli.GetNode(ctx, &pb.GetNodeOptions{Nodename: fmt.Sprintf("n%d", rr.Intn(4))})
+						_, _ = cli.GetNodeEngineInfo(ctx, &pb.GetNodeOptions{Nodename: fmt.Sprintf("n%d", rr.Intn(4))})
+					case "pod-resource":
+						if st, err := cli.GetPodResource(ctx, &pb.GetPodOptions{Name: "pa"}); err == nil {
+							for {
+								if _, err := st.Recv(); err != nil {
+									break
+								}
+							}
+						}
+					case "node-status":
+						n := fmt.Sprintf("n%d", rr.Intn(4))
+						_, _ = cli.SetNodeStatus(ctx, &pb.SetNodeStatusOptions{Nodename: n, Ttl: int64(1 + rr.Intn(3))})
+						_, _ = cli.GetNodeStatus(ctx, &pb.GetNodeStatusOptions{Nodename: n})
+					case "node-status-stream":
+						sctx, scancel := context.WithTimeout(ctx, 150*time.Millisecond)
+						if st, err := cli.NodeStatusStream(sctx, &pb.Empty{}); err == nil {
+							for {
+								if _, err := st.Recv(); err != nil {
+									break
+								}
+							}
+						}
+						scancel()
+					case "service-status":
+						sctx, scancel := context.WithTimeout(ctx, 150*time.Millisecond)
+						if st, err := cli.WatchServiceStatus(sctx, &pb.Empty{}); err == nil {
+							for {
+								if _, err := st.Recv(); err != nil {
+									break
+								}
+							}
+						}
+						scancel()
+					case "copy":
+						ids := pick(rr, 2)
+						if len(ids) == 0 {
+							break
+						}
+						tg := map[string]*pb.CopyPaths{}
+						for _, id := range ids {
+							tg[id] = &pb.CopyPaths{Paths: []string{"/f", "/missing"}}
+						}
+						if st, err := cli.Copy(ctx, &pb.CopyOptions{Targets: tg}); err == nil {
+							for {
+								m, err := st.Recv()
+								if err != nil {
+									break
+								}
+								if m.Error == "" {
+									rec.Count("effective/copy", 1)
+								}
+							}
+						}
+					case "log-stream":
+						if ids := pick(rr, 1); len(ids) > 0 {
+							if st, err := cli.LogStream(ctx, &pb.LogStreamOptions{Id: ids[0], Tail: "10"}); err == nil {
+								for {
+									m, err := st.Recv()
+									if err != nil {
+										break
+									}
+									if m.Error == "" {
+										rec.Count("effective/log-stream", 1)
+									}
+								}
+							}
+						}
+					case "run-and-wait":
+						if st, err := cli.RunAndWait(ctx); err == nil {
+							_ = st.Send(&pb.RunAndWaitOptions{DeployOptions: &pb.DeployOptions{Name: "job", Entrypoint: &pb.EntrypointOptions{Name: "run", Commands: []string{"true"}}, Podname: "pa", Image: "img", Count: int32(1 + rr.Intn(2)),
+								DeployStrategy: pb.DeployOptions_AUTO, Resources: res(0.05, false)}})
+							_ = st.CloseSend()
+							for {
+								m, err := st.Recv()
+								if err != nil {
+									break
+								}
+								if m.WorkloadId != "" {
+									rec.Count("effective/run-and-wait", 1)
+								}
+							}
+						}
+					case "list-node-workloads":
+						_, _ = cli.ListNodeWorkloads(ctx, &pb.GetNodeOptions{Nodename: fmt.Sprintf("n%d", rr.Intn(4))})
+					case "spare-node":
+						// a node of its own that nobody deploys to by name: added, looked at, removed
+						n := fmt.Sprintf("spare%d", g)
+						sim.NewHost(n, 4, 10<<30)
+						b, _ := json.Marshal(map[string]any{"cpu": 4, "memory": 8 << 30})
+						if _, err := cli.AddNode(ctx, &pb.AddNodeOptions{Nodename: n, Endpoint: sim.Prefix + n, Podname: "pb", Resources: map[string][]byte{"cpumem": b}}); err == nil {
+							_, _ = cli.GetNode(ctx, &pb.GetNodeOptions{Nodename: n})
+							if _, err := cli.RemoveNode(ctx, &pb.RemoveNodeOptions{Nodename: n}); err == nil {
+								rec.Count("effective/spare-node", 1)
+							}
+						}
+					case "pods":
+						_, _ = cli.ListPods(ctx, &pb.Empty{})
+						_, _ = cli.GetPod(ctx, &pb.GetPodOptions{Name: "pa"})
+						_, _ = cli.Info(ctx, &pb.Empty{})
+					case "execute":
+						if ids := pick(rr, 1); len(ids) > 0 {
+							if st, err := cli.ExecuteWorkload(ctx); err == nil {
+								_ = st.Send(&pb.ExecuteWorkloadOptions{WorkloadId: ids[0], Commands: []string{"ls"}})
+								_ = st.CloseSend()
+								for {
+									m, err := st.Recv()
+									if err != nil {
+										break
+									}
+									if m != nil {
+										rec.Count("effective/execute", 1)
+									}
+								}
+							}
+						}
 					case "capacity":
 						_, _ = cli.CalculateCapacity(ctx, &pb.DeployOptions{Name: "app", Entrypoint: &pb.EntrypointOptions{Name: "web"}, Podname: "pa", Image: "img", Count: 1, DeployStrategy: pb.DeployOptions_AUTO, Resources: res(0.5, false)})
 					}
